@@ -75,6 +75,8 @@ class Judge:
         self.muted = False
         self.key_tree = {}
         self.listings = {}
+        self.mig_interrupted = set()   # target stores an interrupted migration wrote into
+        self.broken_stores = set()     # ... and whose re-run refused to continue: nothing is claimed about them
         # some name-mode chain of this history uses config names containing a dot (zone of known finding F11)
         self.dotted_namemode = any(o_['op'] in ('build', 'migrate') and not o_.get('pmode', o_['op'] != 'migrate') and '.' in (o_.get('render') or {}).get('name_suffix', '')
                                    for p_ in scn['procs'] for o_ in p_['ops'])
@@ -194,6 +196,8 @@ class Judge:
             self.disc('C04', 'I-runs', op['i'], 'run executed during chain construction', inv=o['inv'])
         if 'err' in res:
             self.disc('C01', 'I-build', op['i'], 'chain construction failed', err=res['err'])
+            return
+        if op.get('store', 'main') in self.broken_stores:
             return
         reg = ('multi', 'reg:' + op['registry']) if op.get('registry') else ('chain', op['cid'])
         self._register_chain(op, o, op['cid'], op['root'], op['render'], res['tasks'], op.get('pmode', True), reg)
@@ -667,11 +671,33 @@ class Judge:
         res = o.get('res') or {}
         if o['inv']:
             self.disc('C20', 'I-runs', op['i'], 'migration executed a run', inv=o['inv'])
+        if o.get('crash'):
+            # the migrating process died: whatever it had copied so far is in the target, the last file possibly torn
+            self.stats['crashes'] += 1
+            self.mig_interrupted.add(op['target'])
+            for name, it in self.model(op['root'], None).items():
+                if it.kind in PERSIST_NONE:
+                    continue
+                k = (op['target'], it.D)
+                if k not in self.store:
+                    self.store[k] = Loc(it.kind, it.slug, it.cspec.get('cont_steps', 0))
+                if self.store[k].state != 'complete':
+                    self.store[k].state = 'indoubt'
+                    self.store[k].tainted = True
+                    self.store[k].stage_exact = False
+            return
         if 'err' in res:
+            if op['target'] in self.mig_interrupted and not op.get('dry', True):
+                # the re-run refuses the half-copied target of an interrupted migration: nothing is claimed about that target
+                self.stats['migration_refused_after_crash'] = self.stats.get('migration_refused_after_crash', 0) + 1
+                self.broken_stores.add(op['target'])
+                return
             self.disc('C20', 'I-migrate', op['i'], 'migrate_to_parameter_mode raised', err=res['err'], dry=op.get('dry'))
             return
         if op.get('dry', True):
             return
+        if op['target'] in self.mig_interrupted and op['target'] not in self.broken_stores:
+            self.stats['migration_completed_after_crash'] = self.stats.get('migration_completed_after_crash', 0) + 1
         insts = self.model(op['root'], None)
         suffix = op['render'].get('name_suffix', '')
         for name, it in insts.items():
@@ -742,7 +768,7 @@ def _has_pathobj(it):
 
 
 import re
-_WORK_RE = re.compile(r'(_tmp|_error|_old)(\.[A-Za-z0-9]+)?$')
+_WORK_RE = re.compile(r'(_tmp|_error|_old|_migration)(\.[A-Za-z0-9]+)?$')
 
 
 def _is_work_path(rel):
